@@ -21,6 +21,8 @@ def run(prog, rep):
     from rules import msgpack_tables as _mt
     rep.rule('R7.7', 'ReadExtSize (both reader copies): the length field of k = 1, 2, 4 bytes is read once, unsigned, and returned', floor=6)
     _mt.check_ext_size(prog, rep, 'R7.7')
+    from rules import byte_sequences
+    byte_sequences.check(prog, rep, 'R7.8', 'Read')
     M.check_accept_tables(prog, rep)
     M.check_bytecode_table(prog, rep)
     M.check_ext_offsets(prog, rep)
